@@ -5,6 +5,9 @@ HERE = os.path.dirname(os.path.dirname(os.path.abspath(__file__)))
 
 # id -> (technique, level text, level note, design ref)
 CHECKS = {
+ "C07": ("model-based testing against a reference interrupt-dispatch model: exhaustive IF x IE x IME x run-state x stack-pointer/PC product + proptest states with shrinking",
+         "The complete IF x IE x master-enable x run-state product is combined with 64 stack pointers (pushes landing on IE, IF, bank registers, side-effect I/O registers, every region boundary) and PC sets (all 256 high/low bytes where the push can change IE/IF); Core::handle_interrupt (also reached through update, run_interp and run_code_block) is compared with models::irq driving a twin machine's bus: wake-up, IME, PC, SP as 32-bit fields, charged cycles, IF, IE, ordered bus writes and the whole machine state.",
+         "trusted: models::irq; the twin machine's bus produces the side effects of the two pushes; the IF value when the low-byte push itself lands on IF is set-valued", "DESIGN.md §5 C07"),
  "C19": ("generated ROM files against an accept/reject oracle and the header tables: exhaustive per header field x file-length classes + proptest headers with shrinking, loaded through the real loader in forked workers",
          "In-memory ROM files are loaded through main::load_rom: all 256 values of the checksum, type, ROM-size and RAM-size bytes x 11 file-length classes around 0x100, 0x150 and the declared size, plus generated headers with arbitrary bytes everywhere. Accepted <=> long enough, checksum of 0x134-0x14C matches, supported type, file covers the declared size; accepted cores must have the table's ROM/RAM sizes, map banks like models::mbc, survive a full address sweep and a short run; any signal is a violation.",
          "trusted: the header tables in harness rom.rs, models::mbc; unknown size codes and over-long files are gray (either outcome, no crash)", "DESIGN.md §5 C19"),
